@@ -1,53 +1,145 @@
 /*
- * C02, tool level: LD_PRELOAD library that fakes the wall clock (C02_FAKE_TIME = seconds since the epoch) for
- * time(), gettimeofday() and clock_gettime(CLOCK_REALTIME).  If the packers consulted the clock, the image would
- * change with C02_FAKE_TIME.  Every call is counted; the count is written to C02_TIME_LOG at exit.
+ * C02, tool level: LD_PRELOAD library that fakes the wall clock (C02_FAKE_TIME = seconds since the epoch) behind every libc entry
+ * point that reads it: time(), gettimeofday(), clock_gettime(CLOCK_REALTIME / CLOCK_REALTIME_COARSE / CLOCK_TAI), timespec_get()
+ * (which glibc implements on an internal clock_gettime, so hooking clock_gettime alone does not cover it), ftime() and the 64 bit
+ * time_t aliases of 32 bit targets.  The monotonic / CPU time clocks stay real.  If the packers consulted the clock, the image
+ * would change with C02_FAKE_TIME.
+ *
+ * C02_TIME_LOG is an append-only record file, one line per event, each written with a single write(2) on an O_APPEND descriptor:
+ *     bound pid=<pid> exe=<basename of /proc/self/exe> fake=<seconds>      when the library is loaded (constructor)
+ *     read fn=<entry point> pid=<pid> exe=<basename>                       for every intercepted read of the wall clock
+ * The `bound` line is the proof that the library was loaded into that very process; the check requires it for every packer run (a
+ * count of 0 reads is also what a library that was never loaded produces).  harness/c02_time_selftest.c calls every entry point.
+ * Not covered (stated in the evidence): a raw syscall(SYS_clock_gettime) or a direct vDSO call; the packers contain neither.
  */
 #define _GNU_SOURCE
 #include <dlfcn.h>
+#include <fcntl.h>
 #include <stdio.h>
 #include <stdlib.h>
+#include <string.h>
 #include <sys/time.h>
+#include <sys/timeb.h>
 #include <time.h>
+#include <unistd.h>
 
-static long calls;
-static time_t fake(void)
+static char exe_name[128] = "?";
+
+static long long fake(void)
 {
 	const char *e = getenv("C02_FAKE_TIME");
-	return e ? (time_t)atoll(e) : (time_t)1234567890;
+	return e ? atoll(e) : 1234567890LL;
 }
-static void dump(void)
+
+static void record(const char *line, size_t n)
 {
 	const char *p = getenv("C02_TIME_LOG");
-	FILE *f;
-	if (!p) return;
-	f = fopen(p, "w");
-	if (f) { fprintf(f, "%ld\n", calls); fclose(f); }
+	int fd;
+	if (!p || !*p) return;
+	fd = open(p, O_WRONLY | O_CREAT | O_APPEND | O_CLOEXEC, 0644);
+	if (fd < 0) return;
+	if (write(fd, line, n) < 0) { /* the check notices the missing record */ }
+	close(fd);
 }
-__attribute__((constructor)) static void init(void) { atexit(dump); }
+
+static void note(const char *fn)
+{
+	char buf[256];
+	int n = snprintf(buf, sizeof(buf), "read fn=%s pid=%ld exe=%s\n", fn, (long)getpid(), exe_name);
+	if (n > 0) record(buf, (size_t)n < sizeof(buf) ? (size_t)n : sizeof(buf) - 1);
+}
+
+__attribute__((constructor)) static void init(void)
+{
+	char path[4096], buf[256];
+	ssize_t k = readlink("/proc/self/exe", path, sizeof(path) - 1);
+	int n;
+	if (k > 0) {
+		const char *b;
+		path[k] = 0;
+		b = strrchr(path, '/');
+		b = b ? b + 1 : path;
+		snprintf(exe_name, sizeof(exe_name), "%s", b);
+		for (char *c = exe_name; *c; ++c)
+			if (*c == ' ' || *c == '\n' || *c == '\t') *c = '_';
+	}
+	n = snprintf(buf, sizeof(buf), "bound pid=%ld exe=%s fake=%lld\n", (long)getpid(), exe_name, fake());
+	if (n > 0) record(buf, (size_t)n < sizeof(buf) ? (size_t)n : sizeof(buf) - 1);
+}
+
+static int is_wall(clockid_t id)
+{
+	return id == CLOCK_REALTIME
+#ifdef CLOCK_REALTIME_COARSE
+		|| id == CLOCK_REALTIME_COARSE
+#endif
+#ifdef CLOCK_TAI
+		|| id == CLOCK_TAI
+#endif
+		;
+}
 
 time_t time(time_t *t)
 {
-	time_t v = fake();
-	++calls;
+	time_t v = (time_t)fake();
+	note("time");
 	if (t) *t = v;
 	return v;
 }
+
 int gettimeofday(struct timeval *tv, void *tz)
 {
 	(void)tz;
-	++calls;
-	if (tv) { tv->tv_sec = fake(); tv->tv_usec = 0; }
+	note("gettimeofday");
+	if (tv) { tv->tv_sec = (time_t)fake(); tv->tv_usec = 0; }
 	return 0;
 }
+
 int clock_gettime(clockid_t id, struct timespec *ts)
 {
 	static int (*real)(clockid_t, struct timespec *);
-	if (!real) real = (int (*)(clockid_t, struct timespec *))dlsym(RTLD_NEXT, "clock_gettime");
-	if (id == CLOCK_REALTIME) {
-		++calls;
-		if (ts) { ts->tv_sec = fake(); ts->tv_nsec = 0; }
+	if (is_wall(id)) {
+		note("clock_gettime");
+		if (ts) { ts->tv_sec = (time_t)fake(); ts->tv_nsec = 0; }
 		return 0;
 	}
+	if (!real) real = (int (*)(clockid_t, struct timespec *))dlsym(RTLD_NEXT, "clock_gettime");
 	return real(id, ts);
 }
+
+int timespec_get(struct timespec *ts, int base)
+{
+	if (base != TIME_UTC) return 0;
+	note("timespec_get");
+	if (ts) { ts->tv_sec = (time_t)fake(); ts->tv_nsec = 0; }
+	return base;
+}
+
+int ftime(struct timeb *tb)
+{
+	note("ftime");
+	if (tb) { memset(tb, 0, sizeof(*tb)); tb->time = (time_t)fake(); }
+	return 0;
+}
+
+#if defined(__GLIBC__) && __TIMESIZE == 32
+/* 32 bit targets built with _TIME_BITS=64 call these instead */
+struct c02_ts64 { long long tv_sec; int tv_nsec; int pad; };
+struct c02_tv64 { long long tv_sec; long long tv_usec; };
+long long __time64(long long *t) { long long v = fake(); note("__time64"); if (t) *t = v; return v; }
+int __gettimeofday64(struct c02_tv64 *tv, void *tz) { (void)tz; note("__gettimeofday64"); if (tv) { tv->tv_sec = fake(); tv->tv_usec = 0; } return 0; }
+int __clock_gettime64(clockid_t id, struct c02_ts64 *ts)
+{
+	static int (*real)(clockid_t, struct c02_ts64 *);
+	if (is_wall(id)) { note("__clock_gettime64"); if (ts) { ts->tv_sec = fake(); ts->tv_nsec = 0; } return 0; }
+	if (!real) real = (int (*)(clockid_t, struct c02_ts64 *))dlsym(RTLD_NEXT, "__clock_gettime64");
+	return real(id, ts);
+}
+int __timespec_get64(struct c02_ts64 *ts, int base)
+{
+	if (base != TIME_UTC) return 0;
+	note("__timespec_get64");
+	if (ts) { ts->tv_sec = fake(); ts->tv_nsec = 0; }
+	return base;
+}
+#endif
